@@ -2,11 +2,12 @@ import N0Verif.Proofs.CompareOpts
 import N0Verif.Proofs.CompareTransform
 import N0Verif.Proofs.CompareTransformKeyed
 import N0Verif.Proofs.CompareKeyVals
+import N0Verif.Proofs.CompareTransformCk
 import N0Verif.Proofs.XPathMatchGenEq
 /-!
 # C10 — exclude_xpaths, compare_only and transform only narrow or map what is compared
 
-Model: `N0Verif/Model/Compare.lean` (the code with fix patches C07-a, C08-a, C09-a, C07-b, C07-c, C09-b, C10-a applied).
+Model: `N0Verif/Model/Compare.lean` (the code with fix patches C07-a, C08-a, C09-a, C07-b, C07-c, C09-b, C10-a, C07-d, C08-b, C10-c applied).
 `Res.diffPart` = number of `differences` lines and the four difference lists;
 `Res.filterPaths keep` keeps the entries whose path satisfies `keep` (and recounts the lines).
 -/
@@ -174,17 +175,117 @@ def IdxBlind (cfg : Cfg) : Prop :=
     transformAt cfg (p ++ .idx2 i j :: q) = transformAt cfg (p ++ .idx i :: q) ∧
     transformAt cfg (p ++ .idx2 i j :: q) = transformAt cfg (p ++ .idx j :: q)
 
-/-- the statement of `C10_transform_keyed` WITH a composite key — stated, not proved (the proved part is
-`C10_transform_keyed_ck_keys`: same keys, hence same pairing).  What is missing is the walk induction for a pair met
-across positions: the run with `transform` compares the leaves of the pair at `prefix[i]<>[j]/field` while the mapped
-trees were built with `prefix[i]/field` (left) and `prefix[j]/field` (right), which needs `IdxBlind` and a
-three-path generalisation of the induction of `Proofs/CompareTransformKeyed.lean`.  Checked on the implementation by
-evaluator `transform/ck` (patterns `rows/<field>`, `rows[i]/<field>`, `//<field>`, `*/<field>`). -/
+/-- the statement of `C10_transform_keyed` WITH a composite key (and without: `cfg.ck` is unrestricted) — **proved**:
+`C10_transform_keyed_ck` below.  The keys agree item by item (`C10_transform_keyed_ck_keys`), so both runs pair the same
+positions; for a pair met across positions the run with `transform` compares the leaves at `prefix[i]<>[j]/field` while
+the mapped trees were built with `prefix[i]/field` (left) and `prefix[j]/field` (right): under `IdxBlind` the three
+lookups are one (`trck_mapT_congr`: the mapping of a subtree depends on its prefix only through the transform lookups of
+the extensions of the prefix), and the walk induction goes through with general keys (`trck_keyedWalk`,
+`Proofs/CompareTransformCk.lean`).  Also checked on the implementation by evaluator `transform/ck` (patterns
+`rows/<field>`, `rows[i]/<field>`, `//<field>`, `*/<field>`). -/
 def C10_transform_keyed_ck_stmt : Prop :=
   ∀ (cfg : Cfg) (a b : Val), cfg.direct = false → LeafTransform cfg → IdxBlind cfg →
     recOnly a = true → recOnly b = true →
     (∀ x ∈ allItems a ++ allItems b, keyFieldsLeaf cfg x) →
     TrERel (compareTop cfg a b) (compareTop (noTransf cfg) (mapT cfg [] a) (mapT cfg [] b))
+
+/-- **C10 (transform, keyed/default comparison WITH a composite key).**  For `compare` (`cfg.direct = false`), EVERY
+composite key, `LeafTransform cfg`, `IdxBlind cfg` (no transform pattern tells `[i]`, `[j]` and `[i]<>[j]` apart), every
+other option and flag record, on trees every list of which holds records only or leaves only, the key fields of the
+records being leaves: the run with `transform` on `(a, b)` and the run without it on the mapped trees raise the same
+exception or return results of the same shape — records paired ACROSS positions (`[i]<>[j]`) included, at every depth
+(keyed lists inside the records of keyed lists too). -/
+theorem C10_transform_keyed_ck : C10_transform_keyed_ck_stmt := by
+  intro cfg a b hd hl hb ha hb' hk
+  exact compareTop_tr_ck cfg hd hl hb a b ⟨ha, fun z hz => hk z (List.mem_append_left _ hz)⟩
+    ⟨hb', fun z hz => hk z (List.mem_append_right _ hz)⟩
+
+/-- … in particular the verdict is the verdict on the mapped trees -/
+theorem C10_transform_keyed_ck_verdict (cfg : Cfg) (a b : Val) (hd : cfg.direct = false) (hl : LeafTransform cfg)
+    (hb : IdxBlind cfg) (ha : recOnly a = true) (hb' : recOnly b = true)
+    (hk : ∀ x ∈ allItems a ++ allItems b, keyFieldsLeaf cfg x) :
+    verdict (compareTop cfg a b) = verdict (compareTop { cfg with tr := [] } (mapT cfg [] a) (mapT cfg [] b)) := by
+  have hrel := C10_transform_keyed_ck cfg a b hd hl hb ha hb' hk
+  change _ = verdict (compareTop (noTransf cfg) (mapT cfg [] a) (mapT cfg [] b))
+  cases hc : compareTop cfg a b <;> cases hc' : compareTop (noTransf cfg) (mapT cfg [] a) (mapT cfg [] b) <;>
+    rw [hc, hc'] at hrel
+  · rfl
+  · exact hrel.elim
+  · exact hrel.elim
+  · simp only [tr_erel_ok_ok, Res.shape, Prod.mk.injEq] at hrel
+    simp [verdict, hrel.1]
+
+/-- **a syntactic criterion for `IdxBlind`**: no transform pattern contains the character `]` (no pattern names a list
+index).  Replacing `[i]<>[j]` by `[i]` or `[j]` changes one part of the rendered path, which has a `]` before and after;
+a pattern part without `]` is `*` (matches both) or equals neither, case folding included — for every tree, whatever
+its keys are. -/
+theorem C10_idxBlind_of_noBracket (cfg : Cfg) (h : ∀ t ∈ cfg.tr, ']' ∉ t.pat) : IdxBlind cfg :=
+  trck_idxBlind_of_noBracket cfg h
+
+/-- non-vacuity of `C10_transform_keyed_ck`: `composite_key='id'`, `transform=(('//n', lower), ('id', lower))` (the
+second pattern changes the KEYS: `'X'` meets `'x'`).
+`{'r': [{'id':'X','n':'A','v':1}, {'id':'y','n':'b','v':2}]}` vs `{'r': [{'id':'Y','n':'B','v':3}, {'id':'x','n':'a','v':1}, {'id':'z'}]}`:
+the records meet ACROSS positions (`r[0]<>[1]`, `r[1]<>[0]`), the names agree after `lower`, one changed value at
+`/r[1]<>[0]/v`, one extra record; without `transform` nothing meets (5 differences). -/
+def ckxCfg : Cfg := { Cfg.default Flags.init false with
+  ck := .one ['i', 'd'], tr := [⟨['/', '/', 'n'], lowerFn⟩, ⟨['i', 'd'], lowerFn⟩] }
+def ckxRec (i n : Char) (v : Int) : Val := .dict .n0 [(['i', 'd'], .str [i]), (['n'], .str [n]), (['v'], .int v)]
+def ckxA : Val := .dict .n0 [(['r'], .list .n0 [ckxRec 'X' 'A' 1, ckxRec 'y' 'b' 2])]
+def ckxB : Val := .dict .n0 [(['r'], .list .n0 [ckxRec 'Y' 'B' 3, ckxRec 'x' 'a' 1, .dict .n0 [(['i', 'd'], .str ['z'])]])]
+
+theorem ckxCfg_leaf : LeafTransform ckxCfg := by
+  intro t ht
+  simp only [ckxCfg, Cfg.default, List.mem_cons, List.not_mem_nil, or_false] at ht
+  have hlow : (∀ c xs, lowerFn (.list c xs) = .list c xs) ∧ (∀ c kvs, lowerFn (.dict c kvs) = .dict c kvs) ∧
+      (∀ v, isPyScalar v = true → isPyScalar (lowerFn v) = true) ∧
+      (isPyScalar (lowerFn .none) = true ∨ lowerFn .none = .none) := by
+    refine ⟨fun _ _ => rfl, fun _ _ => rfl, ?_, .inr rfl⟩
+    intro v hv
+    cases v <;> simp_all [lowerFn, isPyScalar]
+  rcases ht with rfl | rfl <;> exact hlow
+
+theorem ckxCfg_blind : IdxBlind ckxCfg := by
+  apply C10_idxBlind_of_noBracket
+  intro t ht
+  simp only [ckxCfg, Cfg.default, List.mem_cons, List.not_mem_nil, or_false] at ht
+  rcases ht with rfl | rfl <;> decide
+
+theorem ckx_items : ∀ x ∈ allItems ckxA ++ allItems ckxB, keyFieldsLeaf ckxCfg x := by
+  intro x hx
+  simp only [ckxA, ckxB, allItems, allItemsK, allItemsL, ckxRec, List.append_nil, List.mem_append, List.mem_cons,
+    List.not_mem_nil, or_false] at hx
+  rcases hx with (rfl | rfl) | (rfl | rfl | rfl) <;>
+    simp [keyFieldsLeaf, ckxCfg, Cfg.default, PatArg.pats, Val.lookup, isLeaf]
+
+example : ckxCfg.direct = false ∧ ckxCfg.ck.pats = [['i', 'd']] ∧ recOnly ckxA = true ∧ recOnly ckxB = true := by decide
+example : (compareTop ckxCfg ckxA ckxB).map (fun r => (r.diffs, r.notEqual.map (·.path), r.otherUnique.map (·.path)))
+    = .ok (2, [[.key ['r'], .idx2 1 0, .key ['v']]], [[.key ['r'], .idx 2]]) := by decide
+example : (compareTop { ckxCfg with tr := [] } ckxA ckxB).map (·.diffs) = .ok 5 := by decide
+/-- every hypothesis of `C10_transform_keyed_ck` holds of these inputs -/
+example : TrERel (compareTop ckxCfg ckxA ckxB) (compareTop (noTransf ckxCfg) (mapT ckxCfg [] ckxA) (mapT ckxCfg [] ckxB)) :=
+  C10_transform_keyed_ck ckxCfg ckxA ckxB rfl ckxCfg_leaf ckxCfg_blind (by decide) (by decide) ckx_items
+
+/-- … and at depth: a keyed list inside the records of a keyed list, pairs met across positions at BOTH levels —
+`{'r': [{'id':'X','s':[{'id':'p','n':'A'}, {'id':'q','n':'b'}]}, {'id':'y','s':[]}]}` vs
+`{'r': [{'id':'Y','s':[]}, {'id':'x','s':[{'id':'Q','n':'B'}, {'id':'P','n':'c'}]}]}`: the only difference is
+`/r[0]<>[1]/s[0]<>[1]/n` (`'A'` vs `'c'`), in the run with `transform` and in the plain run on the mapped trees
+(the implementation reports the same entry); the plain run on the original trees reports 4 differences. -/
+def ckxSub (i n : Char) : Val := .dict .n0 [(['i', 'd'], .str [i]), (['n'], .str [n])]
+def ckxOuter (i : Char) (s : List Val) : Val := .dict .n0 [(['i', 'd'], .str [i]), (['s'], .list .n0 s)]
+def ckxNA : Val := .dict .n0 [(['r'], .list .n0 [ckxOuter 'X' [ckxSub 'p' 'A', ckxSub 'q' 'b'], ckxOuter 'y' []])]
+def ckxNB : Val := .dict .n0 [(['r'], .list .n0 [ckxOuter 'Y' [], ckxOuter 'x' [ckxSub 'Q' 'B', ckxSub 'P' 'c']])]
+example : recOnly ckxNA = true ∧ recOnly ckxNB = true := by decide
+example : (compareTop ckxCfg ckxNA ckxNB).map (fun r => (r.diffs, r.notEqual.map (·.path)))
+    = .ok (1, [[.key ['r'], .idx2 0 1, .key ['s'], .idx2 0 1, .key ['n']]]) := by decide
+example : (compareTop (noTransf ckxCfg) (mapT ckxCfg [] ckxNA) (mapT ckxCfg [] ckxNB)).map (fun r => (r.diffs, r.notEqual.map (·.path)))
+    = .ok (1, [[.key ['r'], .idx2 0 1, .key ['s'], .idx2 0 1, .key ['n']]]) := by decide
+example : (compareTop (noTransf ckxCfg) ckxNA ckxNB).map (·.diffs) = .ok 4 := by decide
+example : ∀ x ∈ allItems ckxNA ++ allItems ckxNB, keyFieldsLeaf ckxCfg x := by
+  intro x hx
+  simp only [ckxNA, ckxNB, allItems, allItemsK, allItemsL, ckxOuter, ckxSub, List.append_nil, List.nil_append,
+    List.cons_append, List.mem_cons, List.not_mem_nil, or_false] at hx
+  rcases hx with rfl | rfl | rfl | rfl | rfl | rfl | rfl | rfl <;>
+    simp [keyFieldsLeaf, ckxCfg, Cfg.default, PatArg.pats, Val.lookup, isLeaf]
 
 /-- the inputs of finding C10-c: `{'rows': [{'id': '1', 'v': 1}, {'id': '2', 'v': 2}]}` against the same with `rows`
 reversed, `composite_key='id'`: (a) the pattern `rows/id` (no index: matches no dictionary entry) with the constant
